@@ -94,7 +94,12 @@ class C14(Prop):
                   "back under the RFC 9000/9114 parser as (type, length = bytes that follow); for every run of the machine in "
                   "either role, every configuration and every acceptance pattern each stream's byte log satisfies the RFC 9114 "
                   "validity predicate (prefix-valid while open, whole frames at FIN); grease ids are 31N+33 < 2^62 and never a "
-                  "defined or HTTP/2-reserved id")
+                  "defined or HTTP/2-reserved id; chunking independence: for a payload handed over as any list of segments (Chain, "
+                  "deque of Bytes; empty segments anywhere) the DATA length and the bytes handed to the transport are those of the "
+                  "flattened payload, every poll over the segmented buffer being a poll over the flat one; the run theorem also over "
+                  "the extended machine (stop_stream, peer STOP_SENDING, abandoned call, stop_sending, peer RESET, split, cloned "
+                  "SendRequest handles): a send side that was ended may stop inside a frame (prefix-valid, whole frames at FIN), h3 "
+                  "resets request streams only, an idle request stream holds whole frames")
     level_note = ("trusted: Lean kernel + 3 standard axioms; hand models tied to the code by (a) the real WriteBuf built through "
                   "its From impls and consumed through its Buf impl under the same patterns (engine wbuf), (b) real h3 "
                   "server/client objects over SimQuic under random API programs x configurations x write-credit patterns (engine "
@@ -117,13 +122,29 @@ class C14(Prop):
             "gw<grease id>:k, then Pending) x a second control frame (MAX_PUSH_ID / CANCEL_PUSH to a server, GOAWAY to a client) "
             "delivered while it is blocked x {nothing, a third frame, more credit, more credit + a third frame, credit in two "
             "steps} - a stream finished meanwhile is judged `truncated` by checkStream; "
+            "wbuf datac: = Frame::Data over a payload in segments (2 segments: bytes::buf::Chain, else a deque of Bytes): every "
+            "2-way split of payloads of 0..6 bytes incl. empty first / second segment, splits of 63/64/65/100/16383/16384/16385 "
+            "bytes around the length-varint boundaries, sampled 3/4-way splits with empty segments anywhere, also behind a stream "
+            "type; out programs also: split (send calls on the send half), stop_stream as last send-side op, stop_sending, kill "
+            "(possibly in mid-write), peer RESET / STOP_SENDING behind the first call, CONNECT and extended CONNECT requests, "
+            "SendRequest::clone (snd.cl; requests through any live handle), shutdown(n) with n up to 2^64-1 (GOAWAY ids in 1/2/4/8 "
+            "byte varints, saturating), build credit granted before the q ops; the judge (outlog) demands whole frames on every "
+            "stream that is not being written and has no call pending unless the line / summary says its send side was ended, at "
+            "most one control / encoder / decoder stream, no rst on those, no MISUSE / OVERLAP, and refuses unknown tokens (BAD:); "
             "non-trivial = the implementation wrote at least one frame beyond the three stream headers or wrote on its grease "
             "stream (out) / returned bytes (wbuf)")
     trusted = ["bytes::Bytes Buf impl for payloads", "SimQuic's poll_ready loop respects the Buf contract (chunk, advance <= chunk length)",
-               "field-section annotations (#fs) are obtained from the real encoder by a probe run and are inputs of the model"]
+               "field-section annotations (#fs) are obtained from the real encoder by a probe run and are inputs of the model",
+               "bytes::buf::Chain and the harness' Segs (deque of Bytes, chunk() = first non-empty segment) honour the Buf contract "
+               "(chunk() empty only when remaining() == 0); a Buf that breaks it is the application's error"]
     assumptions = ["R-14: API programs are sequences of calls each awaited to completion; a send future dropped in mid-write is outside the model",
                    "after FIN the transport refuses further writes (RFC 9000 §3.1); programs do not call send_* after finish on the same stream",
-                   "payload Buf is contiguous (Bytes)",
+                   "programs do not call send_* / finish after stop_stream on the same stream; after split the send calls are made on the send half only",
+                   "engine out sends contiguous payloads (the scenario interpreter's connection is typed B = Bytes); segmented payloads "
+                   "are covered at the WriteBuf level (engine wbuf, datac:), where Frame::encode and impl Buf for WriteBuf - the only "
+                   "code that touches the payload on the send path - run on the real types, plus the translator's reading of both",
+                   "a FIN the transport accepts after the send side has ended (peer STOP_SENDING / own RESET_STREAM / connection end) "
+                   "finishes nothing (reading R-14b): SimQuic's poll_finish does not look at STOP_SENDING",
                    "engine out, grease on with credit limits: the harness seeds fastrand with a hash of the case line, so the three "
                    "reserved ids are a function of the line; the model assumes each is an 8-byte varint (id >= 2^30; a draw gives a "
                    "smaller one with probability ~2^-32). A line whose hash yields a smaller id would show as a correspondence "
@@ -687,6 +708,22 @@ class C14(Prop):
             feat += "+multidata-trailers"
         if ",writing" in impl:
             feat += "+midwrite"
+        # the calls of the second audit (by what the line does, and `rst=` by what the implementation did)
+        ops = w[3:]
+        if ",rst=" in impl:
+            feat += "+rst"
+        if any(re.match(r"x\d+:", o) for o in ops):
+            feat += "+peerstop"
+        if any(o.endswith(".sp") for o in ops):
+            feat += "+split"
+        if any(o.endswith((".kill", ".kill?")) for o in ops):
+            feat += "+kill"
+        if any(o.endswith(".cl") for o in ops):
+            feat += "+clone"
+        if any(".R:CONNECT" in o for o in ops):
+            feat += "+connect"
+        if any(re.search(r"\.S:\d{3,}$", o) for o in ops):
+            feat += "+bigshutdown"
         return "out/%s/%s/%s/%s/%s%s" % (w[1], mode, lim, impl.split(" ")[0].split(":")[0], pend, feat)
 
     def trivial(self, line, impl):
